@@ -23,6 +23,7 @@ func newTicker(period time.Duration, fuzz float64) ticker {
 		donech:  make(chan struct{}),
 	}
 
+	verifTrace(t, "ticker.new", period)
 	go t.run()
 
 	return t
@@ -73,6 +74,7 @@ func (t *_ticker) run() {
 		select {
 
 		case <-t.resetch:
+			verifTrace(t, "ticker.reset")
 			if !timer.Stop() {
 				select {
 				case <-timer.C:
@@ -83,14 +85,17 @@ func (t *_ticker) run() {
 			nextch = nil
 
 		case <-t.stopch:
+			verifTrace(t, "ticker.stop")
 			timer.Stop()
 			return
 
 		case <-timer.C:
+			verifTrace(t, "ticker.fire")
 			timer.Stop()
 			nextch = t.nextch
 
 		case nextch <- count:
+			verifTrace(t, "ticker.next", count)
 			count++
 			nextch = nil
 			timer.Reset(t.nextPeriod())
